@@ -89,7 +89,9 @@ def c17a(ck, prog):
           "" if ok else "`message` is written (%s) after its size was taken for the chunk header and before it is appended: the announced chunk size differs from the bytes sent" % ", ".join("%s@%s" % (c.name, f.loc(c.sp)) for c in late),
           how="%d writes to message, all before hexized_bytes(message.len()); none between it and the append" % len(mw))
     # (2) per-line framing
-    loop_nx = [c for c in f.calls() if re.search(r"Iterator>?::next$", c.callee or "") and "Split" in (c.callee or "")]
+    # the line loop: an Iterator::next (other than the stream's) under whose `Some` edge the message is written
+    cand = [c for c in f.calls() if (c.decl or "") == "core::iter::traits::iterator::Iterator::next" or re.search(r"Iterator>?::next$", c.callee or "")]
+    loop_nx = [c for c in cand if any(paths.has_fact(f, prog, w.bb, lambda fa, c=c: fa.kind == "variant" and fa.allowed == {"Some"} and fa.steps and fa.steps[-1][0] == "call" and fa.steps[-1][1].bb == c.bb) for w in mw)]
     in_line = lambda c: len(loop_nx) == 1 and paths.has_fact(f, prog, c.bb, lambda fa: fa.kind == "variant" and fa.allowed == {"Some"} and fa.steps and fa.steps[-1][0] == "call" and fa.steps[-1][1].bb == loop_nx[0].bb) is not None
     after_lines = lambda c: len(loop_nx) == 1 and paths.has_fact(f, prog, c.bb, lambda fa: fa.kind == "variant" and fa.allowed == {"None"} and fa.steps and fa.steps[-1][0] == "call" and fa.steps[-1][1].bb == loop_nx[0].bb) is not None
 
@@ -99,7 +101,8 @@ def c17a(ck, prog):
             v = lit(f, c, 1)
             if v is None:
                 d = decision.describe_deep(f, c.args[1], 3)
-                v = "<line>" if "next(" in d and "split" in d else d[:30]
+                src = paths.root_call(f, c.args[1])
+                v = "<line>" if len(loop_nx) == 1 and src is not None and src.bb == loop_nx[0].bb else d[:30]
             out.append((c.name, v))
         return out
     per_line = shape_of([c for c in mw if in_line(c)])
@@ -108,11 +111,30 @@ def c17a(ck, prog):
     ok = per_line == [("extend_from_slice", "data: "), ("extend_from_slice", "<line>"), ("push", 10)] and tail == [("push", 10)] and not other
     ck.ob(R, "line-framing", ok, f.loc(msg.sp),
           "" if ok else "a message is built as %r per line, then %r (other writes: %r); expected `data: ` line LF per line and one final LF" % (per_line, tail, other), how="per line: data: <line> LF; after the lines: LF")
-    sp = [c for c in f.calls_to(r"^core::str::<impl str>::(split|lines|split_terminator|split_inclusive)")]
-    sp = [c for c in sp if paths.root_call(f, c.args[0]) is not None and paths.root_call(f, c.args[0]).bb != -1]
-    sepc = ((f.const_args(sp[0]) + [None, None])[1] or {}).get("ch") if sp else None
-    ok = len(sp) == 1 and sp[0].name == "split" and sepc == "\n"
-    ck.ob(R, "line-split", ok, f.loc(sp[0].sp if sp else None), "" if ok else "messages are split into lines with %s(%r)" % ([c.name for c in sp], sepc), how="split('\\n')")
+    # line breaks: an event-stream parser ends a line at CRLF, LF *and* CR; the encoder must split at all three,
+    # or a message containing one of them is decoded with other line boundaries (and its tail can pose as another field)
+    sp = []
+    for g in [f] + prog.descendants(f.key):
+        for c in g.calls_to(r"^core::str::<impl str>::(split|lines|split_terminator|split_inclusive|rsplit|splitn|split_once)$"):
+            sp.append((g, c))
+    seps = set()
+    names = []
+    for g, c in sp:
+        names.append(c.name)
+        ca = (g.const_args(c) + [None, None])[1] if c.name != "lines" else None
+        if c.name == "lines":
+            seps |= {"\n", "\r\n"}
+        elif ca is not None:
+            seps.add(ca.get("ch") if "ch" in ca else ca.get("s"))
+        elif len(c.args) > 1:
+            d = decision.describe_deep(g, c.args[1], 3)
+            for m in re.finditer(r"const '((?:\\\\.|[^'])*)'", d):
+                seps.add(m.group(1).encode().decode("unicode_escape"))
+    lone = {x for x in seps if x is not None and len(x) == 1}
+    ok = bool(sp) and {"\n", "\r"} <= lone and "split_inclusive" not in names
+    ck.ob(R, "line-split", ok, f.loc(sp[0][1].sp if sp else None),
+          "" if ok else "messages are split into lines with %s on separator(s) %s: a line of an event stream also ends at %s, so a message containing it is decoded with different line boundaries than it was given"
+          % (names, sorted(repr(x) for x in seps if x is not None), " and ".join(repr(x) for x in sorted({"\n", "\r"} - lone))), how="split at CRLF, LF and CR (%s)" % sorted(repr(x) for x in seps if x is not None))
     # (3) chunk framing: [hex digits] CRLF message CRLF
     chunk = paths.root_call(f, ap.args[0], through=paths.TRANSPARENT + r"|DerefMut>::deref_mut$")
     cw = writes_to(f, chunk.bb) if chunk is not None else []
